@@ -11,7 +11,7 @@ from ..interp import Pins, find_nodes, unparse
 from ..model import AnalysisError
 from .util import effect_table, enclosing_loop, enclosing_stmt, enum_members, every_iteration_reaches, fmt, inline_displays, is_const, parent, returns_of, same, single_def
 
-P = ("C05", "C01", "C06", "C08", "C09", "C10", "C11", "C12", "C13", "C14", "C15", "C16")  # pre- and postprocess are part of optimize(P, only <pass>) for every pass
+P = ("C05", "C01", "C02", "C06", "C08", "C09", "C10", "C11", "C12", "C13", "C14", "C15", "C16")  # pre- and postprocess are part of optimize(P, only <pass>) for every pass
 OPS = ["Equal", "NotEqual", "GreaterEqual", "LessEqual", "GreaterThan", "LessThan"]
 NEG = {"Equal": "NotEqual", "NotEqual": "Equal", "GreaterEqual": "LessThan", "LessEqual": "GreaterThan", "GreaterThan": "LessEqual", "LessThan": "GreaterEqual"}
 CONV = {"Equal": "Equal", "NotEqual": "NotEqual", "GreaterEqual": "LessEqual", "LessEqual": "GreaterEqual", "GreaterThan": "LessThan", "LessThan": "GreaterThan"}
@@ -320,6 +320,30 @@ def r_aggregate_conversion(ck: Checker) -> None:
     ck.add("every occurrence of `_` gets its own fresh variable", len(per_occurrence) >= 1 and len(per_occurrence) == len(mk), func, mk[0] if mk else func.node,
            f"{len(per_occurrence)} of {len(mk)} make_unique call(s) sit in a per-variable callback guarded by `name == '_'`",
            "`2 { edge(_,_) }` counts distinct edges: one shared fresh variable turns it into `edge(A,A)`")
+    # the atom copied into the tuple must not carry `_` at ANY depth (a `_` in a tuple is a fresh unbound variable for gringo:
+    # `1 { not p(f(_)) }` becomes unsafe): the replacement walks the whole term with transform_ast
+    its = ck.interp(func, Pins.of(vals={"atom.ast_type": "ASTType.SymbolicAtom"}))
+    sym_apps = [c for c in apps if its.reachable(c) and not itc.reachable(c)]
+    ck.need(len(sym_apps) == 1, "the atom of a symbolic element is appended to the tuple at one site")
+    val: ast.AST = sym_apps[0].args[0]
+    holder = func
+    for _ in range(3):
+        if isinstance(val, ast.Call) and not callee_is(ck.prg, holder, val, "ngo.utils.ast:transform_ast"):
+            tgt = ck.prg.funcs.get(ck.prg.resolve_callee(holder, val.func) or "")
+            rets_h = [r for r in returns_of(tgt)] if tgt is not None else []
+            if tgt is None or len(rets_h) != 1 or rets_h[0].value is None:
+                break
+            holder, val = tgt, rets_h[0].value
+    deep = isinstance(val, ast.Call) and callee_is(ck.prg, holder, val, "ngo.utils.ast:transform_ast") and len(val.args) == 3 and is_const(val.args[1], "Variable")
+    cb_txt = ""
+    if deep:
+        cb = val.args[2]  # type: ignore[attr-defined]
+        cb_txt = unparse(cb)
+        if isinstance(cb, ast.Name):
+            nested = [f for q, f in ck.prg.funcs.items() if q.startswith(holder.qualname + ".<locals>.") and f.name == cb.id]
+            cb_txt = unparse(nested[0].node) if nested else cb_txt
+    ck.add("anonymous variables at every depth of the atom are replaced before it enters the tuple", bool(deep) and "'_'" in cb_txt and "make_unique" not in cb_txt, func, sym_apps[0],
+           f"tuple term `{short(unparse(val), 110)}`", "`_` below the top argument level (`not p(f(_))`) stays in the tuple otherwise: the produced aggregate is unsafe although the source is safe")
     ro = ck.func("normalize:replace_old_aggregates")
     itr = ck.interp(ro)
     sites: dict[int, ast.Call] = {}
@@ -378,6 +402,35 @@ def r_chain_places(ck: Checker) -> None:
             detail = f"for a {kind} head _normalize_operators_condition is applied to {sorted(args)} of {sorted(orgs)}"
         ck.add(f"chains in the conditions of {kind} head elements are split", ok, ec, ups[0], detail,
                "`{ p(X,Y) : d(X), d(Y), 1 < X < Y }.`: DomainPredicates copies the condition into the body of __dom_p, where symmetry asserts one-link comparisons (AssertionError) and math / cleanup read guards[0] only")
+
+
+def r_one_link_out(ck: Checker) -> None:
+    """no comparison literal leaves the two splitting loops with more than one link, whatever its sign: later passes read
+    guards[0] only, and symmetry asserts len(guards) == 1"""
+    for fname in ("normalize:normalize_operators", "normalize:_normalize_operators_condition"):
+        func = ck.func(fname)
+        loops = [lp for lp in find_nodes(func.node, lambda n: isinstance(n, ast.For)) if enclosing_loop(func, lp) is None and unparse(lp.iter) == func.params()[0]]
+        ck.need(len(loops) == 1 and isinstance(loops[0].target, ast.Name), f"{fname} loops over its literals")
+        var = loops[0].target.id  # type: ignore[attr-defined]
+        inside = {id(x) for x in ast.walk(loops[0])}
+        outs = [c for c in attr_calls(func, "append") + attr_calls(func, "extend") if id(c) in inside and unparse(c.func.value).startswith("new_")]  # type: ignore[attr-defined]
+        ck.need(len(outs) >= 2, "literals are emitted in the loop")
+        n = 0
+        for sign in enum_members("Sign"):
+            it = ck.interp(func, Pins.of(vals={f"{var}.ast_type": "ASTType.Literal", f"{var}.atom.ast_type": "ASTType.Comparison", f"{var}.sign": sign}))
+            for out in outs:
+                if not it.reachable(out):
+                    continue
+                n += 1
+                arg = it.texts(out, out.args[0])
+                inner = enclosing_loop(func, out)
+                src = unparse(inner.iter) if inner is not None and inner is not loops[0] else " ".join(sorted(arg))  # type: ignore[union-attr]
+                split = "comparison2comparisonlist(" in src and all(re.search(r"Comparison\(\w+,\[Guard\(\w+,\w+\)\]\)", t.replace(" ", "")) for t in arg) and bool(arg)
+                single = it.holds(out, f"len({var}.atom.guards) == 1")
+                ck.add(f"a {sign.split('.')[1]} comparison leaves with one link per literal", split or single, func, out,
+                       f"a comparison literal with sign {sign} reaches `{short(unparse(out), 70)}`: one literal per link: {split}; dominated by a single-link test: {single}",
+                       "`not 3 <= P <= 7` in an element condition: symmetry asserts `len(lit.atom.guards) == 1` for every comparison it meets (AssertionError), math and cleanup read guards[0] only")
+        ck.need(n >= 3, "comparison literals reach an emission site")
 
 
 def r_exline(ck: Checker) -> None:
@@ -498,14 +551,15 @@ def r_replace_assignments(ck: Checker) -> None:
 RULES_EXTRA = [Rule("C05.one-link", P + ("C12", "C14", "C11", "C04"), r_one_link)]
 
 RULES = RULES_EXTRA + [
-    Rule("C05.TABLE.operators", P + ("C14", "C13"), r_operator_tables),
+    Rule("C05.TABLE.operators", P + ("C14", "C13", "C20"), r_operator_tables),  # C20: math folds comparisons between constants in generated domain rules too
     Rule("C05.TABLE.bounds", P, r_bounds_table),
     Rule("C05.chain-split", P, r_chain_split),
     Rule("C05.chain-places", P + ("C03", "C11", "C14"), r_chain_places),
+    Rule("C05.one-link-out", P + ("C03", "C11", "C14"), r_one_link_out),
     Rule("C05.TABLE.equality", P, r_equality_table),
-    Rule("C05.C4.local-only", P, r_local_only),
-    Rule("C05.C6.inline-rule", P + ("C02",), r_inline_rule),
-    Rule("C05.aggregate-conversion", P, r_aggregate_conversion, extra={"C07": ("gets its own fresh variable", "become fresh variables")}),
+    Rule("C05.C4.local-only", P + ("C04",), r_local_only),
+    Rule("C05.C6.inline-rule", P, r_inline_rule),
+    Rule("C05.aggregate-conversion", P, r_aggregate_conversion, extra={"C07": ("gets its own fresh variable", "become fresh variables"), "C04": ("anonymous variables at every depth",)}),
     Rule("C05.exline", P + ("C04",), r_exline, extra={"C03": ("normal form pipeline",)}),
     Rule("C05.C.replace-assignments", ("C10", "C11", "C01", "C04"), r_replace_assignments),
 ]
